@@ -133,8 +133,13 @@ def concat (a : Arr α) (ys : List α) : Arr α × Res Unit :=
 def resize (a : Arr α) (n : Nat) : Arr α × Res Unit :=
   if n = 0 then (a.clear, .ok ()) else ({ items := a.items.take n, nslots := n }, .ok ())
 
-/-- `Array_Assign` from an object with `Len` and `Get`: clear, then `nitems = nslots = len(obj)` -/
-def assign (_ : Arr α) (ys : List α) : Arr α × Res Unit := (⟨ys, ys.length⟩, .ok ())
+/-- `Array_Assign` (obj is not self).  `indexed` = the source implements `Len` and `Get` (Array, List, Tuple, Slice, Range …):
+    clear, then `nitems = nslots = len(obj)` and the records are assigned in place.  Otherwise (an iterator-only source such
+    as `filter(…)`): clear, then `foreach (item in obj) Array_Push(self, item)` — the contents are the same, the capacity is
+    what the pushes leave. -/
+def assign (a : Arr α) (ys : List α) (indexed : Bool := true) : Arr α × Res Unit :=
+  if indexed then (⟨ys, ys.length⟩, .ok ())
+  else (ys.foldl (fun a y => (a.push y).1) a.clear, .ok ())
 
 /-- `Array_Sort_By` -/
 def sortBy (a : Arr α) (f : α → α → Bool) : Arr α × Res Unit :=
@@ -247,8 +252,10 @@ def resize [Inhabited α] (l : Lst α) (n : Nat) : Lst α × Res Unit :=
     let adds := n - l1.nitems
     ({ items := l1.items ++ List.replicate adds default, nitems := l1.nitems + adds }, .ok ())
 
-/-- `List_Assign`: clear, then push `get(obj, i)` for `i < len(obj)` -/
-def assign (l : Lst α) (ys : List α) : Lst α × Res Unit := l.clear.concat ys
+/-- `List_Assign` (obj is not self): clear, then push `get(obj, i)` for `i < len(obj)`.  There is no iterator branch: a source
+    without `Len` (`indexed = false`, e.g. `filter(…)`) makes `len(obj)` raise `ClassError` — after the List was cleared. -/
+def assign (l : Lst α) (ys : List α) (indexed : Bool := true) : Lst α × Res Unit :=
+  if indexed then l.clear.concat ys else (l.clear, .raised .classError)
 
 /-- `List` has no `Sort` instance: `sort_by` raises `ClassError` in `method` -/
 def sortBy (l : Lst α) (_ : α → α → Bool) : Lst α × Res Unit := (l, .raised .classError)
@@ -353,8 +360,11 @@ def concat (t : Tup α) (ys : List α) : Tup α × Res Unit := ({ items := t.ite
 def resize (t : Tup α) (n : Nat) : Tup α × Res Unit :=
   if n < t.len then ({ items := t.items.take n }, .ok ()) else (t, .raised .formatError)
 
-/-- `Tuple_Assign` from an object with `Len` and `Get` -/
-def assign (_ : Tup α) (ys : List α) : Tup α × Res Unit := ({ items := ys }, .ok ())
+/-- `Tuple_Assign`.  From an object with `Len` and `Get` (`indexed`): realloc to `len+1` cells, store `get(obj, i)`, Terminal.
+    From an iterator-only source (`filter(…)`): `foreach (item in obj) Tuple_Push(self, item)` — with NO clear first: the
+    items are appended to what the Tuple holds (known finding KF-C04-tuple-assign-iter unless the Tuple is empty). -/
+def assign (t : Tup α) (ys : List α) (indexed : Bool := true) : Tup α × Res Unit :=
+  if indexed then ({ items := ys }, .ok ()) else ({ items := t.items ++ ys }, .ok ())
 
 def sortBy (t : Tup α) (f : α → α → Bool) : Tup α × Res Unit := ({ items := Sort.sortList f t.items }, .ok ())
 
@@ -362,16 +372,64 @@ def copy (t : Tup α) : Tup α := ((⟨[]⟩ : Tup α).assign t.items).1
 
 end Tup
 
-/-! ## Aliased arguments: `assign(x, x)` and `concat(x, x)` (known findings KF-C04-self-assign / KF-C04-self-concat)
+/-! ## Aliased arguments: `assign(x, x)`, `concat(x, x)` (known finding KF-C04-self-concat) and an Array's own element as
+  the argument of `push` / `push_at` (known finding KF-C04-push-own-element)
 
-  These are what the C functions do when `obj` *is* `self`; they are not reachable through `Op` (whose arguments are
-  values), are excluded from generated cases, and are exercised by the `kfself` witness ops in a forked child. -/
+  These are what the C functions do when `obj` *is* `self` or points *into* `self`; they are not reachable through `Op`
+  (whose arguments are values).  `assign(x, x)` is generated (ops `assign s s`); `concat(x, x)` and the bad region of
+  `push(a, get(a, k))` are excluded from generated cases and exercised by the `kfself` / `kfown` witness ops in a forked
+  child. -/
 
-/-- `assign(a, a)`: `Array_Assign` calls `Array_Clear(self)` first and then reads `len(obj)` — of the cleared object -/
-def Arr.assignSelf (a : Arr α) : Arr α × Res Unit := let c := a.clear; c.assign c.items
+/-- `assign(a, a)` since fix a3140e4: `Array_Assign` returns at once when `self is obj` -/
+def Arr.assignSelf (a : Arr α) : Arr α × Res Unit := (a, .ok ())
 
-/-- `assign(l, l)`: `List_Assign` calls `List_Clear(self)` first, then pushes `get(obj, i)` for `i < len(obj) = 0` -/
-def Lst.assignSelf (l : Lst α) : Lst α × Res Unit := let c := l.clear; c.assign c.items
+/-- `assign(l, l)` since fix a3140e4: `List_Assign` returns at once when `self is obj` -/
+def Lst.assignSelf (l : Lst α) : Lst α × Res Unit := (l, .ok ())
+
+/-- OLD (before fix a3140e4): `Array_Assign` called `Array_Clear(self)` first and then read `len(obj)` — of the cleared object -/
+def Arr.assignSelfOld (a : Arr α) : Arr α × Res Unit := let c := a.clear; c.assign c.items
+
+/-- OLD (before fix a3140e4): `List_Assign` called `List_Clear(self)` first, then pushed `get(obj, i)` for `i < len(obj) = 0` -/
+def Lst.assignSelfOld (l : Lst α) : Lst α × Res Unit := let c := l.clear; c.assign c.items
+
+/-- `push(a, get(a, k))` on an Array: `obj` is the address of record `k` of the block.  `Array_Push` does `nitems++`,
+    `Array_Reserve_More` (a `realloc` when the capacity is exceeded: the block may move and `obj` then points into freed
+    memory — the read in `assign` is a use after free), `Array_Alloc(nitems-1)` (zeroes the *new* record, not `k`), and
+    only then `assign(record nitems-1, obj)`. -/
+def Arr.pushElem (a : Arr α) (k : Int) : Arr α × Res Unit :=
+  match a.get k with
+  | .raised e => (a, .raised e)
+  | .ub => (a, .ub)
+  | .ok x => if a.nitems + 1 > a.nslots then (a, .ub) else a.push x
+
+/-- `push_at(a, get(a, k), i)` on an Array: after the bounds check `nitems++`, `Array_Reserve_More` (as above: `.ub` when
+    it has to `realloc`), then `memmove` shifts records `i … n-1` up by one, `Array_Alloc(i)` ZEROES record `i`, and only
+    then `assign(record i, obj)` reads record `k` — which by now holds: the old item `k` if `k < i`, the zeroed record if
+    `k = i`, the old item `k-1` if `k > i`.  `cells` below is the block after memmove + zero. -/
+def Arr.pushAtElem [Inhabited α] (a : Arr α) (k i : Int) : Arr α × Res Unit :=
+  match a.get k with
+  | .raised e => (a, .raised e)
+  | .ub => (a, .ub)
+  | .ok _ =>
+    let j := pushIdx a.nitems i
+    if j < 0 ∨ j > (a.nitems : Int) then (a, .raised .indexOutOfBounds)
+    else if a.nitems + 1 > a.nslots then (a, .ub)
+    else
+      let jj := j.toNat
+      let kk := (normIdx a.nitems k).toNat
+      let cells := a.items.take jj ++ default :: a.items.drop jj
+      match cells[kk]? with
+      | none => (a, .ub)
+      | some x => ({ items := cells.set jj x, nslots := a.nslots }, .ok ())
+
+/-- `push(l, get(l, k))` / `push_at(l, get(l, k), i)` on a List: the new node is allocated and assigned (a copy of the
+    element is taken) *before* it is linked, and nothing moves: same as passing the value -/
+def Lst.pushElem (l : Lst α) (k : Int) : Lst α × Res Unit :=
+  match l.get k with
+  | .ok x => l.push x | .raised e => (l, .raised e) | .ub => (l, .ub)
+def Lst.pushAtElem (l : Lst α) (k i : Int) : Lst α × Res Unit :=
+  match l.get k with
+  | .ok x => l.pushAt x i | .raised e => (l, .raised e) | .ub => (l, .ub)
 
 /-- `assign(t, t)`: `Tuple_Assign` reallocs to the same size and stores `get(self, i)` at `i`: no change -/
 def Tup.assignSelf (t : Tup α) : Tup α × Res Unit := t.assign t.items
@@ -411,24 +469,29 @@ def Tup.concatSelf (t : Tup α) : Tup α × Res Unit :=
 inductive Op (α : Type) where
   | push (x : α) | pop | pushAt (x : α) (i : Int) | popAt (i : Int) | set (i : Int) (x : α)
   | rem (x : α) | concat (ys : List α) | append (x : α) | resize (n : Nat)
-  | sort (f : α → α → Bool) | assign (ys : List α)
+  | sort (f : α → α → Bool) | assign (ys : List α) (indexed : Bool)
 
 variable {α : Type}
+
+/-- `assign` from a source that has no `Len`/`Get` (an iterator-only source such as `filter(…)`) -/
+def Op.iterAssign : Op α → Bool
+  | .assign _ false => true
+  | _ => false
 
 def Arr.step [BEq α] (a : Arr α) : Op α → Arr α × Res Unit
   | .push x => a.push x | .pop => a.pop | .pushAt x i => a.pushAt x i | .popAt i => a.popAt i
   | .set i x => a.set i x | .rem x => a.rem x | .concat ys => a.concat ys | .append x => a.push x
-  | .resize n => a.resize n | .sort f => a.sortBy f | .assign ys => a.assign ys
+  | .resize n => a.resize n | .sort f => a.sortBy f | .assign ys b => a.assign ys b
 
 def Lst.step [BEq α] [Inhabited α] (l : Lst α) : Op α → Lst α × Res Unit
   | .push x => l.push x | .pop => l.pop | .pushAt x i => l.pushAt x i | .popAt i => l.popAt i
   | .set i x => l.set i x | .rem x => l.rem x | .concat ys => l.concat ys | .append x => l.push x
-  | .resize n => l.resize n | .sort f => l.sortBy f | .assign ys => l.assign ys
+  | .resize n => l.resize n | .sort f => l.sortBy f | .assign ys b => l.assign ys b
 
 def Tup.step [BEq α] (t : Tup α) : Op α → Tup α × Res Unit
   | .push x => t.push x | .pop => t.pop | .pushAt x i => t.pushAt x i | .popAt i => t.popAt i
   | .set i x => t.set i x | .rem x => t.rem x | .concat ys => t.concat ys | .append x => t.push x
-  | .resize n => t.resize n | .sort f => t.sortBy f | .assign ys => t.assign ys
+  | .resize n => t.resize n | .sort f => t.sortBy f | .assign ys b => t.assign ys b
 
 /-- run a history; stops at the first operation that does not complete normally and reports it -/
 def runOps {σ : Type} (step : σ → Op α → σ × Res Unit) : σ → List (Op α) → σ × Res Unit
@@ -469,7 +532,7 @@ def arrStep [BEq α] (l : List α) : Op α → Option (List α)
   | .append x => some (l ++ [x])
   | .resize n => some (l.take n)
   | .sort f => some (Sort.sortList f l)
-  | .assign ys => some ys
+  | .assign ys _ => some ys
 
 /-- … on a List: `push_at` takes key 0 always, otherwise an index of an existing element (inserting before it);
     `resize` pads with zero-initialised elements; there is no `sort` -/
@@ -484,9 +547,10 @@ def lstStep [BEq α] [Inhabited α] (l : List α) : Op α → Option (List α)
   | .append x => some (l ++ [x])
   | .resize n => some (l.take n ++ List.replicate (n - l.length) default)
   | .sort _ => none
-  | .assign ys => some ys
+  | .assign ys indexed => if indexed then some ys else none     -- a List can only be assigned from a source with Len and Get
 
-/-- … on a Tuple: `push_at` needs an index of an existing element; `resize` only shrinks -/
+/-- … on a Tuple: `push_at` needs an index of an existing element; `resize` only shrinks; `assign` from an iterator-only
+    source is in range only for an empty Tuple (the documented use `var y = new(Tuple); assign(y, filter(…))`) -/
 def tupStep [BEq α] (l : List α) : Op α → Option (List α)
   | .push x => some (l ++ [x])
   | .pop => if l.isEmpty then none else some l.dropLast
@@ -498,7 +562,7 @@ def tupStep [BEq α] (l : List α) : Op α → Option (List α)
   | .append x => some (l ++ [x])
   | .resize n => if n < l.length then some (l.take n) else none
   | .sort f => some (Sort.sortList f l)
-  | .assign ys => some ys
+  | .assign ys indexed => if indexed || l.isEmpty then some ys else none   -- iterator-only source: see `Tup.assign`, KF-C04-tuple-assign-iter
 
 /-- abstract run of a history; `none` as soon as an argument is out of range -/
 def run (step : List α → Op α → Option (List α)) : List α → List (Op α) → Option (List α)
